@@ -153,32 +153,117 @@ def handleNumAdj (ws : List String) : String :=
 
 /-! ### object literal property names (ES5 11.1.5) -/
 
-/-- ToString (9.8.1) of the exact value n/d for the plain-decimal range, when the decimal expansion is finite and short
-    (all the generator uses): "123", "0.5", "1.25" -/
+def natDigits (n : Nat) : List Nat := (toString n).toList.map fun c => c.toNat - 48
+def digitsStr (ds : List Nat) : String := String.ofList (ds.map fun d => Char.ofNat (48 + d))
+def trimZeros (ds : List Nat) : List Nat := (ds.reverse.dropWhile (· == 0)).reverse
+def zeros (n : Nat) : String := String.ofList (List.replicate n '0')
+
+/-- 9.8.1 steps 6-10: the text from the digits `ds` (k = ds.length ≥ 1, no trailing zero) and `n`, value = 0.ds × 10^n -/
+def layout981 (ds : List Nat) (n : Int) : String :=
+  let k : Int := ds.length
+  if k ≤ n ∧ n ≤ 21 then digitsStr ds ++ zeros (n - k).toNat                                         -- step 6
+  else if 0 < n ∧ n ≤ 21 then digitsStr (ds.take n.toNat) ++ "." ++ digitsStr (ds.drop n.toNat)        -- step 7
+  else if -6 < n ∧ n ≤ 0 then "0." ++ zeros (-n).toNat ++ digitsStr ds                                -- step 8
+  else
+    let e := n - 1
+    let es := (if e < 0 then "-" else "+") ++ toString e.natAbs
+    if k = 1 then digitsStr ds ++ "e" ++ es                                                           -- step 9
+    else digitsStr (ds.take 1) ++ "." ++ digitsStr (ds.drop 1) ++ "e" ++ es                           -- step 10
+
+/-- SPEC: ToString (9.8.1) of the Number value of the exact MV n/d, for the literals whose digits 9.8.1 step 5 determines
+    without a search: MV has a finite decimal expansion of at most 15 significant digits (two different decimals of ≤ 15
+    digits never round to the same double, so the "k as small as possible" digits are MV's own, trailing zeros removed),
+    or MV is an integer ≤ 2^53 (itself a Number value).  MV ≥ 2^1024 is +∞.  `none` elsewhere (not generated). -/
 def numToString (n d : Nat) : Option String :=
   if d = 0 then none
-  else if n % d = 0 then (if n / d < 10^21 then some (toString (n / d)) else none)
+  else if n = 0 then some "0"
+  else if n ≥ d * 2^1024 then some "Infinity"
   else
-    let rec find (k fuel : Nat) : Option Nat :=
+    let rec find (j fuel : Nat) : Option Nat :=
       match fuel with
       | 0 => none
-      | fuel+1 => if (n * 10^k) % d = 0 then some k else find (k+1) fuel
-    match find 1 15 with
+      | fuel+1 => if (n * 10^j) % d = 0 then some j else find (j+1) fuel
+    match find 0 400 with
     | none => none
-    | some k =>
-      let m := n * 10^k / d
-      let ip := m / 10^k
-      let fp := m % 10^k
-      if 1000000 * n < d then none else   -- below 1e-6: exponent notation
-      let fs := toString fp
-      some (toString ip ++ "." ++ String.ofList (List.replicate (k - fs.length) '0') ++ fs)
+    | some j =>
+      let m := n * 10^j / d                       -- MV = m × 10^-j
+      let ms := natDigits m
+      let ds := trimZeros ms
+      let n9 : Int := (ms.length : Int) - j
+      if (ds.length ≤ 15 ∧ -300 < n9 ∧ n9 ≤ 308) ∨ (j = 0 ∧ m ≤ 2^53) then some (layout981 ds n9) else none
+
+/-- p with 10^(p-1) ≤ num/den < 10^p -/
+def decExp (num den : Nat) : Int :=
+  if num ≥ den then ((natDigits (num / den)).length : Int)
+  else
+    let rec up (j fuel : Nat) : Nat :=
+      match fuel with
+      | 0 => j
+      | fuel+1 => if num * 10^j ≥ den then j else up (j+1) fuel
+    1 - (up 1 400 : Int)
+
+/-- the double nearest to c × 10^t -/
+def ofDec (c : Nat) (t : Int) : FV := if t ≥ 0 then ofRatParts false (c * 10^t.toNat) 1 else ofRatParts false c (10^(-t).toNat)
+
+/-- STUB of strconv's shortest digit generation (ftoa.go: ryuFtoaShortest / roundShortest) for the positive finite double
+    x = num/den: the fewest digits (≤ 17) of a decimal that reads back as x, the closest such; (digits, n) with value
+    ≈ 0.digits × 10^n, trailing zeros removed -/
+def shortest (x : FV) (num den : Nat) : Option (List Nat × Int) :=
+  let p := decExp num den
+  let rec go (k fuel : Nat) : Option (List Nat × Int) :=
+    match fuel with
+    | 0 => none
+    | fuel+1 =>
+      let t : Int := (k : Int) - p
+      let (a, b) := if t ≥ 0 then (num * 10^t.toNat, den) else (num, den * 10^(-t).toNat)
+      let lo := a / b
+      let hi := lo + 1
+      let ok (c : Nat) : Bool := same (ofDec c (-t)) x
+      let pick (c : Nat) : Option (List Nat × Int) := if c ≥ 10^k then some ([1], p + 1) else some (trimZeros (natDigits c), p)
+      if a % b = 0 ∧ ok lo then pick lo
+      else if ok lo ∧ ok hi then
+        (if 2 * a < (2 * lo + 1) * b then pick lo else if 2 * a > (2 * lo + 1) * b then pick hi
+         else if lo % 2 = 0 then pick lo else pick hi)
+      else if ok lo then pick lo
+      else if ok hi then pick hi
+      else go (k+1) fuel
+  go 1 17
+
+/-- MODEL: numericPropertyName (expression.go): strconv.FormatInt for the int64 results of parseNumberLiteral (|v| ≤ 2^53;
+    the same text as %f of that double), "Infinity", FormatFloat(number, 'e', -1, 64) without the padding zero of a
+    two-digit exponent when number ≥ 1e21 or 0 < number < 1e-6 (float64 comparisons with the constants), else
+    FormatFloat(number, 'f', -1, 64) -/
+def numericPropertyName (x : FV) : Option String :=
+  match x with
+  | .nan => none
+  | .inf _ => some "Infinity"
+  | .fin _ m e =>
+    if m = 0 then some "0" else
+    let (num, den) : Nat × Nat := if e ≥ 0 then (m * 2^e.toNat, 1) else (m, 2^(-e).toNat)
+    match shortest x num den with
+    | none => none
+    | some (ds, n) =>
+      let k := ds.length
+      if le (ofRatParts false (10^21) 1) x || lt x (ofRatParts false 1 1000000) then
+        -- fmtE (ftoa.go:379): d[.ddd]e±dd, at least two exponent digits; then the strip of one leading zero
+        let ex := n - 1
+        let exs := toString ex.natAbs
+        let exs := if exs.length < 2 then "0" ++ exs else exs
+        let exs := if exs.startsWith "0" then (exs.drop 1).toString else exs
+        some (digitsStr (ds.take 1) ++ (if k > 1 then "." ++ digitsStr (ds.drop 1) else "") ++ "e" ++ (if ex < 0 then "-" else "+") ++ exs)
+      else
+        -- fmtF (ftoa.go:434) with the shortest digits
+        let ip := if n > 0 then digitsStr (ds.take n.toNat) ++ zeros (n.toNat - k) else "0"
+        let fp := if (k : Int) > n then "." ++ zeros (-n).toNat ++ digitsStr (ds.drop n.toNat) else ""
+        some (ip ++ fp)
 
 def bytesToString? (bs : List Nat) : Option String := String.fromUTF8? (ByteArray.mk (bs.map (·.toUInt8)).toArray)
 
 /-- model (parseObjectPropertyKey, expression.go:233-265) and specification (11.1.5 PropertyName) of one key;
-    third component: is the request inside `numeric_property_key` (the source spelling differs from ToString(MV)) -/
-def keyOf (kind : String) (sp : List Nat) : Option (String × String × Bool) :=
-  match kind with
+    third component: is the request inside `numeric_property_key` — since the fix of data properties only a getter / setter
+    name (kind = get | set) whose source spelling differs from ToString(MV) -/
+def keyOf (kind keykind : String) (sp : List Nat) : Option (String × String × Bool) :=
+  match keykind with
   | "id" => do
     let s ← bytesToString? sp
     let cs ← OttoVerif.C04.Reserved.decode s.toList
@@ -192,10 +277,13 @@ def keyOf (kind : String) (sp : List Nat) : Option (String × String × Bool) :=
     | _, _ => none
   | "num" => do
     let text ← bytesToString? sp
-    let _ ← LitModel.parseNumberLiteral sp           -- :246: a literal that does not parse is an error
+    let x ← LitModel.parseNumberLiteral sp           -- a literal that does not parse is an error
     let (n, d) ← LitSpec.mv sp
     let canon ← numToString n d
-    pure (text, canon, text != canon)                 -- :250 `value = literal`
+    if kind = "value" then
+      let name ← numericPropertyName x                -- parseObjectProperty: a NUMBER token in front of a colon
+      pure (name, canon, false)
+    else pure (text, canon, text != canon)            -- accessor names: `value = literal` (parseObjectPropertyKey)
   | _ => none
 
 /-- obj <entries> <srchex>: entries = `kind.keykind~hexspelling` separated by ','  (kind: value | get | set) -/
@@ -210,7 +298,7 @@ def handleObj (ws : List String) : String :=
         | [kk, h] =>
           match kk.splitOn ".", bytes? h with
           | [kind, keykind], some sp =>
-            match keyOf keykind sp with
+            match keyOf kind keykind sp with
             | some (km, ks, dv) =>
               -- FunctionLiteral.Source of an accessor: the text of the accessor definition (parseObjectProperty: p.slice(start, Idx1))
               let text := (bytesToString? sp).getD ""
